@@ -294,7 +294,7 @@ func cmdRun(args []string) int {
 			}
 			if req, ok := cfg.Opts["require"]; ok {
 				for _, lab := range strings.Split(req, ",") {
-					if st.Reached[lab] == 0 {
+					if st.Reached[lab] == 0 && len(st.Violations) == 0 {
 						rep.Status = "vacuous"
 						fmt.Printf("ENGINE-ERROR harness %s: required marker %q never reached (vacuous)\n", hn, lab)
 						engineErr = true
